@@ -21,10 +21,19 @@
     is consumed; `C01_idle_only_after_code`: the machine returns to IDLE only from
     AFTER_FLUSH_RESET, which `C01_code_complete` shows is entered only when the last byte of the
     code's unit has been taken by the application's `write`.
-  Liveness (every line eventually gets its code) needs handlers that eventually return a terminal
-  code and an application that keeps calling `cat_service`; see C15 for the progress theorems.
+  * `C01_all_answered_at_rest` (`Proofs/MidLine.lean`): over any history from `cat_init`, whenever the
+    command machine rests in a state that waits for input and the last byte it consumed was an LF
+    — in particular whenever `cat_service` reports OK after an input that ends with a line break —
+    it is in IDLE and the number of result codes started equals the number of lines begun: every
+    line has been answered, exactly once, its code completely sent (`C01_idle_only_after_code`).
+    The invariant behind it: between the first byte of a line and its LF the last consumed byte is
+    not the LF (`MidLine`).
+  Liveness: `C15_liveness` shows that this state of rest is reached within `mu D s + 1` calls once
+  the input is exhausted, the output accepts and the handlers answer finally; together: every
+  complete line gets its one result code.
 -/
 import CatVerif.Proofs.LineHist
+import CatVerif.Proofs.MidLine
 namespace Cat
 open St
 
@@ -173,5 +182,32 @@ theorem C01_code_complete (D : Desc) (s : St) (i : SvcIn) (hs : s.state = .flush
   obtain ⟨ch, inb⟩ := wb
   simp only
   (repeat' split) <;> simp_all [St.emit]
+
+/-- **Every complete line has been answered when the parser comes to rest.**  Over any history from
+the initial state: if the command machine is in a state waiting for input and the last byte it
+consumed was an LF, then it is in IDLE, nothing is owed, and the result codes started equal the
+lines begun. -/
+theorem C01_all_answered_at_rest (D : Desc) (ops : List Op) (hok : ∀ op ∈ ops, OpOk op)
+    (hr : Reading (runOps ⟨D, ({} : St)⟩ ops).1.s.state) (hc : (runOps ⟨D, ({} : St)⟩ ops).1.s.currentChar = 10) :
+    (runOps ⟨D, ({} : St)⟩ ops).1.s.state = .idle ∧
+    acksIn (runOps ⟨D, ({} : St)⟩ ops).2 = linesBegun ⟨D, ({} : St)⟩ ops := by
+  have li := C01_init
+  have m0 : MidLine ({} : St) := MidLine.of_not (by simp [MidSet])
+  have m := runOps_mid ops ⟨D, ({} : St)⟩ hok li.1 m0
+  have acc := C01_one_code_per_line ops ⟨D, ({} : St)⟩ hok li.1
+  have hid := idle_of_rest m hr hc
+  refine ⟨hid, ?_⟩
+  have o1 : owes (runOps ⟨D, ({} : St)⟩ ops).1.s = 0 := by simp [owes, hid]
+  have := acc.2
+  rw [o1, li.2] at this
+  omega
+
+/-- non-vacuity: the initial state is such a state of rest only trivially (nothing consumed yet: the
+last-byte field is 0); after a blank line `\n` it is one with the LF as last byte -/
+example (D : Desc) : Reading (runOps ⟨D, ({} : St)⟩ [.service { rd := some 10 }]).1.s.state ∧
+    (runOps ⟨D, ({} : St)⟩ [.service { rd := some 10 }]).1.s.currentChar = 10 := by
+  simp [runOps, apply, service, withMutex, serviceBody, unsolicitedEventsService, checkUnsolicitedBuffers,
+    Gen.is_unsolicited_buffer_empty, commandService, processIdleState, readCmdChar, St.emit, Reading]
+  cases D.hasMutex <;> simp [St.emit, toUpper, sc, uc, Gen.to_upper]
 
 end Cat
